@@ -95,3 +95,42 @@ pub open spec fn withdraw_pays(w: World, pair: Seq<char>, pi: PairInfoRaw, i0: A
         assert(canon_of(liquidity_addr.0@) == pair_info.liquidity_token.0@);
     }
 //%end
+
+// ---- cw20 hook entry (C02 hook swap, C04 withdraw hook, C14 caller checks) ----
+pub open spec fn is_pool_token(pi: PairInfoRaw, who: Seq<char>) -> bool {
+    (pi.asset_infos[0] matches AssetInfoRaw::Token { contract_addr } && contract_addr.0@ == canon_of(who))
+    || (pi.asset_infos[1] matches AssetInfoRaw::Token { contract_addr } && contract_addr.0@ == canon_of(who))
+}
+pub open spec fn tok_is(i: AssetInfo, who: Seq<char>) -> bool { i matches AssetInfo::Token { contract_addr } && contract_addr@ == who }
+//%fn contracts/halo-pair/src/contract.rs | - | receive_cw20
+//%%rewrite #1 /for pool in pools\.iter\(\)/ => for pool in it: pools.iter() ## name the loop's ghost iterator so the invariant can mention its position
+//%%rewrite #1 /Addr::unchecked\(cw20_msg\.sender\)/ => addr_unchecked_string(cw20_msg.sender) ## shim: Addr::unchecked(String) has the argument as its text
+//%%sig
+    ensures
+        /*[C02,C14 hook.swap.amount]*/ decode::<Cw20HookMsg>(cw20_msg.msg) matches Ok(Cw20HookMsg::Swap { offer_asset, belief_price, max_spread, to }) ==> r is Ok ==>
+            offer_asset.amount == cw20_msg.amount,
+        /*[C02,C14 hook.swap.sender-is-pool-token]*/ decode::<Cw20HookMsg>(cw20_msg.msg) matches Ok(Cw20HookMsg::Swap { offer_asset, belief_price, max_spread, to }) ==> r is Ok ==>
+            old(deps.storage).pair_info is Some && exists|i0: AssetInfo, i1: AssetInfo| #![trigger raw_of(i0, old(deps.storage).pair_info->Some_0.asset_infos[0]), raw_of(i1, old(deps.storage).pair_info->Some_0.asset_infos[1])]
+                raw_of(i0, old(deps.storage).pair_info->Some_0.asset_infos[0]) && raw_of(i1, old(deps.storage).pair_info->Some_0.asset_infos[1])
+                && (tok_is(i0, info.sender.0@) || tok_is(i1, info.sender.0@)),
+        /*[C02,C03 hook.swap.named-asset-is-sender]*/ decode::<Cw20HookMsg>(cw20_msg.msg) matches Ok(Cw20HookMsg::Swap { offer_asset, belief_price, max_spread, to }) ==> r is Ok ==>
+            (offer_asset.info matches AssetInfo::Token { contract_addr } && contract_addr@ == info.sender.0@),
+        /*[C02,C01,C12 hook.swap.settles]*/ decode::<Cw20HookMsg>(cw20_msg.msg) matches Ok(Cw20HookMsg::Swap { offer_asset, belief_price, max_spread, to }) ==> r is Ok ==>
+            old(deps.storage).pair_info is Some && old(deps.storage).commission is Some && ({
+                let pi = old(deps.storage).pair_info->Some_0;
+                exists|i0: AssetInfo, i1: AssetInfo| #![trigger raw_of(i0, pi.asset_infos[0]), raw_of(i1, pi.asset_infos[1])] raw_of(i0, pi.asset_infos[0]) && raw_of(i1, pi.asset_infos[1])
+                    && swap_settles(deps.querier.world(), env.contract.address.0@, i0, i1, old(deps.storage).commission->Some_0.0.v(), offer_asset,
+                        (if to is Some { to->Some_0@ } else { cw20_msg.sender@ }), r->Ok_0.msgs()) }),
+        /*[C04,C14 hook.withdraw.only-lp-token]*/ decode::<Cw20HookMsg>(cw20_msg.msg) matches Ok(Cw20HookMsg::WithdrawLiquidity {}) ==> r is Ok ==>
+            old(deps.storage).pair_info is Some && canon_of(info.sender.0@) == old(deps.storage).pair_info->Some_0.liquidity_token.0@,
+        /*[C04,C03,C07 hook.withdraw.pays]*/ decode::<Cw20HookMsg>(cw20_msg.msg) matches Ok(Cw20HookMsg::WithdrawLiquidity {}) ==> r is Ok ==>
+            old(deps.storage).pair_info is Some && ({
+                let pi = old(deps.storage).pair_info->Some_0;
+                exists|i0: AssetInfo, i1: AssetInfo, lp: Seq<char>| #![trigger raw_of(i0, pi.asset_infos[0]), raw_of(i1, pi.asset_infos[1]), canon_of(lp)]
+                    raw_of(i0, pi.asset_infos[0]) && raw_of(i1, pi.asset_infos[1])
+                    && withdraw_pays(deps.querier.world(), env.contract.address.0@, pi, i0, i1, lp, cw20_msg.sender@, cw20_msg.amount, r->Ok_0.msgs()) }),
+        /*[C14 hook.undecodable-rejected]*/ decode::<Cw20HookMsg>(cw20_msg.msg) is Err ==> r is Err,
+        /*[C14,C07 hook.no-write]*/ *final(deps.storage) == *old(deps.storage),
+//%%loop 1
+                invariant authorized == ((it.index@ > 0 && tok_is(pools[0].info, info.sender.0@)) || (it.index@ > 1 && tok_is(pools[1].info, info.sender.0@))), 0 <= it.index@ <= 2,
+//%end
